@@ -168,23 +168,20 @@ def ishift : List Nat → List Nat → List Nat
   | n :: ns, j :: js => ((j + n / 2) % n) :: ishift ns js
   | _, _ => []
 
-/-- `fftshift(…, axes=axes[:-1])`: every axis but the last -/
-def fshiftR : List Nat → List Nat → List Nat
-  | [_], [j] => [j]
-  | n :: ns, j :: js => ((j + (n - n / 2)) % n) :: fshiftR ns js
-  | _, _ => []
+/-- `fftshift(…, axes=axes[:-1])`: every axis but the last (pointwise) -/
+def fshiftR (ns m : List Nat) : List Nat :=
+  tab m.length fun a =>
+    if a + 1 = m.length then m.getD a 0
+    else (m.getD a 0 + (ns.getD a 0 - ns.getD a 0 / 2)) % ns.getD a 0
 
 /-- `ifftshift(…, axes=axes[:-1])` -/
-def ishiftR : List Nat → List Nat → List Nat
-  | [_], [j] => [j]
-  | n :: ns, j :: js => ((j + n / 2) % n) :: ishiftR ns js
-  | _, _ => []
+def ishiftR (ns m : List Nat) : List Nat :=
+  tab m.length fun a =>
+    if a + 1 = m.length then m.getD a 0 else (m.getD a 0 + ns.getD a 0 / 2) % ns.getD a 0
 
 /-- shape of the half spectrum: last entry `n // 2 + 1` -/
-def halfShape : List Nat → List Nat
-  | [] => []
-  | [n] => [n / 2 + 1]
-  | n :: ns => n :: halfShape ns
+def halfShape (ns : List Nat) : List Nat :=
+  tab ns.length fun a => if a + 1 = ns.length then ns.getD a 0 / 2 + 1 else ns.getD a 0
 
 /-- index negation mod shape: `(-m) mod n` per axis -/
 def negIdx : List Nat → List Nat → List Nat
